@@ -2030,7 +2030,7 @@ def _chain(it, a, k):
     parts = []
     for x in a:
         if isinstance(x, LazyGen):
-            x = run_genexp(it, x)
+            raise Unsupported("chain() over an unevaluated generator expression (its evaluation time is not modelled)")
         if isinstance(x, GenVal):
             if x.pending_exc is not None:
                 raise Unsupported("chain() over a generator that raises")
